@@ -111,6 +111,9 @@ def c04(run):
              {"flavour": "c99", "userread": False, "extra_opts": "always-interactive"}, {"userread": False, "extra_opts": "always-interactive"},
              {"flavour": "cxx", "userread": False}]
     cases = units.product_unit(run, fd, srcs, cfgs, tag="product", san=True)
+    # NUL sharing its equivalence class with other bytes, 2 ... 9 classes: every table representation
+    ncl = rulesets.nulclass_family()
+    cases += units.product_unit(run, fd, ncl if not q else ncl[::2], tbl_cfgs(["", "-Ce", "-Cf", "-Cfe", "-CFe", "-Cfea", "-Cem"]) + [{"flavour": "c99", "tbl": "-Cfe"}, {"flavour": "cxx", "tbl": "-Cfe"}], tag="nulclass", san=True)
 
     def nul_inputs(c, rng, n):
         al = c.alphabet + [0, 0] + ([255, 128] if not c.src.get("sevenbit") else [])
